@@ -4,7 +4,9 @@
 (*   11.2.1  SLH-DSA-SHA2-128*        (security category 1)  over SHA-256        *)
 (*   11.2.2  SLH-DSA-SHA2-192*/256*   (categories 3 and 5)   SHA-512 for H_msg,  *)
 (*           PRF_msg, H, T_l; SHA-256 for PRF and F                              *)
-(* and a TOY family (pure TLA+, no cryptographic strength) for model checking.   *)
+(* and a TOY family (pure TLA+, no cryptographic strength) for model checking,   *)
+(* and the ZERO family (every function returns zero bytes) which mirrors the     *)
+(* stubbed hashes of the root-comparison hook (Trace_SLHDSA, event "rootcmp").   *)
 (* SHAKE256, Hash and HMAC are the primitive layer (Prim: JDK / own Keccak).     *)
 (* MGF1 is RFC 8017 B.2.1.                                                       *)
 EXTENDS SLHParams, SLHAddr, Prim
@@ -29,12 +31,14 @@ H_msg(p, R, PKseed, PKroot, M) ==
     [] p.fam = "SHA2" /\ ~Cat1(p) ->
          MGF1("SHA512", 64, R \o PKseed \o Hash("SHA512", R \o PKseed \o PKroot \o M), p.m)
     [] p.fam = "TOY" -> ToyHash(1, R \o PKseed \o PKroot \o M, p.m)
+    [] p.fam = "ZERO"  -> ZeroBytes(p.m)
 
 \* ---- PRF(PK.seed, SK.seed, ADRS)  ->  n bytes
 PRF(p, PKseed, SKseed, ADRS) ==
   CASE p.fam = "SHAKE" -> SHAKE256(PKseed \o ADRS \o SKseed, p.n)
     [] p.fam = "SHA2"  -> Trunc(Hash("SHA256", PKseed \o toByte(0, 64 - p.n) \o Compress(ADRS) \o SKseed), p.n)
     [] p.fam = "TOY"   -> ToyHash(2, PKseed \o ADRS \o SKseed, p.n)
+    [] p.fam = "ZERO"  -> ZeroBytes(p.n)
 
 \* ---- PRF_msg(SK.prf, opt_rand, M)  ->  n bytes
 PRF_msg(p, SKprf, opt_rand, M) ==
@@ -42,12 +46,14 @@ PRF_msg(p, SKprf, opt_rand, M) ==
     [] p.fam = "SHA2" /\ Cat1(p)  -> Trunc(HMAC("SHA256", SKprf, opt_rand \o M), p.n)
     [] p.fam = "SHA2" /\ ~Cat1(p) -> Trunc(HMAC("SHA512", SKprf, opt_rand \o M), p.n)
     [] p.fam = "TOY"   -> ToyHash(3, SKprf \o opt_rand \o M, p.n)
+    [] p.fam = "ZERO"  -> ZeroBytes(p.n)
 
 \* ---- F(PK.seed, ADRS, M1)  ->  n bytes      (M1: n bytes)
 F(p, PKseed, ADRS, M1) ==
   CASE p.fam = "SHAKE" -> SHAKE256(PKseed \o ADRS \o M1, p.n)
     [] p.fam = "SHA2"  -> Trunc(Hash("SHA256", PKseed \o toByte(0, 64 - p.n) \o Compress(ADRS) \o M1), p.n)
     [] p.fam = "TOY"   -> ToyHash(4, PKseed \o ADRS \o M1, p.n)
+    [] p.fam = "ZERO"  -> ZeroBytes(p.n)
 
 \* ---- H(PK.seed, ADRS, M2)  ->  n bytes      (M2: 2n bytes)
 H(p, PKseed, ADRS, M2) ==
@@ -55,6 +61,7 @@ H(p, PKseed, ADRS, M2) ==
     [] p.fam = "SHA2" /\ Cat1(p)  -> Trunc(Hash("SHA256", PKseed \o toByte(0, 64 - p.n) \o Compress(ADRS) \o M2), p.n)
     [] p.fam = "SHA2" /\ ~Cat1(p) -> Trunc(Hash("SHA512", PKseed \o toByte(0, 128 - p.n) \o Compress(ADRS) \o M2), p.n)
     [] p.fam = "TOY"   -> ToyHash(5, PKseed \o ADRS \o M2, p.n)
+    [] p.fam = "ZERO"  -> ZeroBytes(p.n)
 
 \* ---- T_l(PK.seed, ADRS, M_l)  ->  n bytes   (M_l: l*n bytes)
 T_l(p, PKseed, ADRS, Ml) ==
@@ -62,4 +69,5 @@ T_l(p, PKseed, ADRS, Ml) ==
     [] p.fam = "SHA2" /\ Cat1(p)  -> Trunc(Hash("SHA256", PKseed \o toByte(0, 64 - p.n) \o Compress(ADRS) \o Ml), p.n)
     [] p.fam = "SHA2" /\ ~Cat1(p) -> Trunc(Hash("SHA512", PKseed \o toByte(0, 128 - p.n) \o Compress(ADRS) \o Ml), p.n)
     [] p.fam = "TOY"   -> ToyHash(6, PKseed \o ADRS \o Ml, p.n)
+    [] p.fam = "ZERO"  -> ZeroBytes(p.n)
 ================================================================================
